@@ -58,6 +58,7 @@ type Options struct {
 	LogEvents     bool
 	RaceDetect    bool
 	TickBudget    int64           // loop-iteration budget between scheduling points (default 2e6)
+	FineReads     bool            // every connection Read is a scheduling point (no burst reduction)
 	EnvDeviations map[string]bool // enabled kinds of environment choice points
 	Start         time.Time       // logical clock origin
 }
@@ -75,20 +76,21 @@ type Result struct {
 }
 
 type thread struct {
-	id        int
-	name      string
-	wake      chan struct{}
-	finished  bool
-	started   bool
-	blocked   func() bool // nil = runnable
-	parkWhat  string
-	wantQuiet bool // enabled only when nothing else is
-	orQuiet   bool // blocked on a predicate OR quiescence
-	quietHit  bool
-	panicMsg  string
-	stack     string
-	vc        vclock
-	exited    chan struct{}
+	id           int
+	name         string
+	wake         chan struct{}
+	finished     bool
+	started      bool
+	blocked      func() bool // nil = runnable
+	parkWhat     string
+	wantQuiet    bool // enabled only when nothing else is
+	orQuiet      bool // blocked on a predicate OR quiescence
+	lastReadConn *Conn
+	quietHit     bool
+	panicMsg     string
+	stack        string
+	vc           vclock
+	exited       chan struct{}
 }
 
 // Exec is one controlled execution.
@@ -391,6 +393,7 @@ func (e *Exec) point(kind string) {
 	}
 	e.steps++
 	e.ticks = 0
+	t.lastReadConn = nil
 	if e.steps > e.opt.MaxSteps {
 		e.stepCap = true
 		e.endExecution(t)
@@ -516,6 +519,22 @@ func (e *Exec) ParkedThreads() []string {
 		if !t.finished {
 			out = append(out, fmt.Sprintf("%d:%s:%s", t.id, t.name, t.parkWhat))
 		}
+	}
+	return out
+}
+
+// ThreadStates reports the state of every thread (harness or driver context).
+func (e *Exec) ThreadStates() []ThreadInfo {
+	var out []ThreadInfo
+	for _, t := range e.threads {
+		ti := ThreadInfo{ID: t.id, Name: t.name, Finished: t.finished, Panic: t.panicMsg}
+		if !t.finished {
+			ti.Parked = t.parkWhat
+			if !t.started {
+				ti.Parked = "not-started"
+			}
+		}
+		out = append(out, ti)
 	}
 	return out
 }
